@@ -55,6 +55,9 @@ def standard(res, args, pid, prop_file, theorems, note, partial=()):
     gen.regenerate_all()
     common.coq_make()
     common.standard_proof_cov(res, prop_file, theorems)
+    from lib import apigen
+    if pid in apigen.API_THEOREMS:
+        apigen.api_obligations(res, pid)
     common.build_ocaml()
     r = run(res.tier, res.seed, pid)
     app, nf = r["summ"].get(pid, (0, 0))
